@@ -373,6 +373,90 @@ func constructionPhase(builders, perBuilder int, seconds float64, minRounds int)
 	return res
 }
 
+// ---------------------------------------------------------------------------------------------------
+// Deep nesting, held: K goroutines parse an input nested d deep with the SHARED graph and are all paused at the
+// innermost token (the leaf of the grammar is user code that waits on a gate found in the run's own user context);
+// while all of them are in the middle of their parse, one more run (shallow input, own context) is executed
+// completely and must give exactly what it gives alone; then the paused runs are released and must give their solo
+// results too.  A resource that is accounted per parser graph instead of per parse (a recursion-depth counter on the
+// shared Sequence, a shared budget, ...) makes the extra run fail or change only because the others are deep at the
+// same time.  All accesses may be atomic, so the race detector has nothing to say; the schedule here is forced.
+type gate struct {
+	once    sync.Once
+	reached *sync.WaitGroup
+	release chan struct{}
+}
+
+func nestedGrammar() parsley.Parser {
+	var nested parser.Func
+	x := terminal.Rune('x')
+	leaf := parser.Func(func(ctx *parsley.Context, leftRecCtx data.IntMap, pos parsley.Pos) (parsley.Node, data.IntSet, parsley.Error) {
+		node, cp, err := x.Parse(ctx, leftRecCtx, pos)
+		if g, ok := ctx.UserContext().(*gate); ok && g != nil && node != nil {
+			g.once.Do(func() {
+				g.reached.Done()
+				<-g.release
+			})
+		}
+		return node, cp, err
+	})
+	nested = combinator.Choice(combinator.SeqOf(terminal.Rune('('), &nested, terminal.Rune(')')), leaf)
+	return combinator.Sentence(&nested)
+}
+
+func runNested(p parsley.Parser, depth int, g *gate) (out string) {
+	defer func() {
+		if r := recover(); r != nil {
+			out = fmt.Sprintf("panic: %v", r)
+		}
+	}()
+	input := strings.Repeat("(", depth) + "x" + strings.Repeat(")", depth)
+	f := text.NewFile("in", []byte(input))
+	ctx := parsley.NewContext(parsley.NewFileSet(f), text.NewReader(f))
+	if g != nil {
+		ctx.SetUserContext(g)
+	}
+	n, err := parsley.Parse(ctx, p)
+	if err != nil {
+		return fmt.Sprintf("error: %v | calls=%d", err, ctx.CallCount())
+	}
+	return fmt.Sprintf("node @%d..%d | calls=%d", n.Pos(), n.ReaderPos(), ctx.CallCount())
+}
+
+func deepPhase(held, depth int) (runs int, report []string) {
+	p := nestedGrammar()
+	const shallow = 20
+	soloDeep := runNested(p, depth, nil)
+	soloShallow := runNested(p, shallow, nil)
+	var reached, done sync.WaitGroup
+	release := make(chan struct{})
+	res := make([]string, held)
+	for w := 0; w < held; w++ {
+		reached.Add(1)
+		done.Add(1)
+		go func(w int) {
+			defer done.Done()
+			g := &gate{reached: &reached, release: release}
+			res[w] = runNested(p, depth, g)
+			g.once.Do(func() { reached.Done() }) // a run that never got to its leaf must not block the phase
+		}(w)
+	}
+	reached.Wait()
+	got := runNested(p, shallow, nil) // executed completely while the others are held in the middle of their parse
+	close(release)
+	done.Wait()
+	runs = held + 1
+	if got != soloShallow {
+		report = append(report, fmt.Sprintf("%d goroutines are in the middle of parsing an input nested %d deep with the shared graph (paused at the innermost token); a further run on an input nested %d deep (own file, reader, context) gives %s; executed alone the same run gives %s", held, depth, shallow, got, soloShallow))
+	}
+	for w, r := range res {
+		if r != soloDeep && len(report) < 3 {
+			report = append(report, fmt.Sprintf("%d goroutines parse an input nested %d deep with the shared graph at the same time; goroutine %d gets %s; executed alone the same run gives %s", held, depth, w, r, soloDeep))
+		}
+	}
+	return runs, report
+}
+
 type mismatch struct {
 	Grammar, Input, Solo, Concurrent, Role string
 }
@@ -386,6 +470,8 @@ func main() {
 	dump := flag.Bool("dump", false, "print the solo results and exit")
 	only := flag.String("grammars", "", "comma separated grammar name prefixes to use (default all)")
 	cseconds := flag.Float64("construct-seconds", 3, "time budget of the construction validation phase (0 = skip)")
+	deepDepth := flag.Int("deep", 300, "nesting depth of the held deep-nesting phase (0 = skip)")
+	deepG := flag.Int("deep-goroutines", 64, "goroutines held in the middle of their parse in the deep-nesting phase")
 	cbuilders := flag.Int("builders", 16, "goroutines constructing rules at the same moment in the construction validation phase")
 	flag.Parse()
 
@@ -478,6 +564,20 @@ func main() {
 		_ = i
 	}
 
+	if *deepDepth > 0 {
+		n, rep := deepPhase(*deepG, *deepDepth)
+		runs += int64(n)
+		for _, m := range rep {
+			if atomic.AddInt64(&mism, 1) == 1 {
+				first.Store(mismatch{"nested (held deep-nesting phase)", fmt.Sprintf("'(' x d  x  ')' x d, d = %d and 20", *deepDepth), "", m, "deep-nesting parse"})
+			}
+		}
+		if len(rep) > 0 {
+			out, _ := json.Marshal(map[string]interface{}{"runs": runs, "mismatches": mism, "first_mismatch": first.Load(), "deep_nesting_report": rep, "construction": cres})
+			fmt.Println(string(out))
+			os.Exit(4)
+		}
+	}
 	var wg sync.WaitGroup
 	start := make(chan struct{})
 	deadline := time.Now().Add(time.Duration(*seconds * float64(time.Second)))
